@@ -140,8 +140,11 @@ fn rooms_served(kind: &str, req_room: Option<Uid>, answers: &[Answer], snap: &Sn
             "Nodes" => {
                 if let Ok(v) = bincode::deserialize::<Vec<Node>>(&a.serialized) {
                     for n in v {
-                        if let Some(r) = n.room_id {
-                            out.push((r, "row".into()));
+                        match n.room_id {
+                            Some(r) => out.push((r, "row".into())),
+                            // definition rows of rooms and the instance's private rows have no room: nobody is served them
+                            // through a data request
+                            None => out.push(([0xEE; 16], format!("row of entity {} that belongs to no room", n._entity))),
                         }
                     }
                 }
@@ -149,8 +152,9 @@ fn rooms_served(kind: &str, req_room: Option<Uid>, answers: &[Answer], snap: &Sn
             "Edges" => {
                 if let Ok(v) = bincode::deserialize::<Vec<Edge>>(&a.serialized) {
                     for e in v {
-                        if let Some(r) = room_of_node(&e.src) {
-                            out.push((r, "reference".into()));
+                        match room_of_node(&e.src) {
+                            Some(r) => out.push((r, "reference".into())),
+                            None => out.push(([0xEE; 16], format!("reference from a row of entity {} that belongs to no room", e.src_entity))),
                         }
                     }
                 }
@@ -244,6 +248,9 @@ fn run_case<'a>(ctx: &'a Ctx, case: u64, acc: &'a mut Acc) -> CaseFut<'a> {
         clock_set(t);
         s.recompute().await;
 
+        // rows that belong to no room: the definition rows of every room and a private row of the instance
+        let _ = s.mutate("mutate { Person{ name:\"private row of the instance\" } }", None).await;
+        let roomless: Vec<Uid> = s.snapshot().await.nodes.values().filter(|n| n.room_id.is_none()).map(|n| n.id).collect();
         // the connection
         let (q_tx, q_rx) = mpsc::channel::<QueryProtocol>(8);
         let (a_tx, a_rx) = mpsc::channel::<Answer>(64);
@@ -322,8 +329,20 @@ fn run_case<'a>(ctx: &'a Ctx, case: u64, acc: &'a mut Acc) -> CaseFut<'a> {
                 5 => Query::EdgeDeletionLog(room, ent, date),
                 6 => Query::NodeDeletionLog(room, ent, date),
                 7 => Query::RoomDailyNodes(room, ent, date),
-                8 | 9 => Query::Nodes(room, row_ids[rj].clone()),
-                10 => Query::Edges(room, row_ids[rj].iter().map(|i| (*i, 0)).collect()),
+                8 | 9 => {
+                    let mut ids = row_ids[rj].clone();
+                    if rng.gen_bool(0.5) {
+                        ids.extend(roomless.iter().copied());
+                    }
+                    Query::Nodes(room, ids)
+                }
+                10 => {
+                    let mut ids = row_ids[rj].clone();
+                    if rng.gen_bool(0.5) {
+                        ids.extend(roomless.iter().copied());
+                    }
+                    Query::Edges(room, ids.iter().map(|i| (*i, 0)).collect())
+                }
                 11 => Query::PeersForRoom(room),
                 _ => Query::HardwareFingerprint(),
             };
